@@ -16,10 +16,11 @@ import (
 func init() {
 	Registry["C19"] = Entry{
 		Run: runC19,
-		Explanation: "Decides three structural necessary conditions of 'semantic edits preserve behaviour' (thin claim): " +
+		Explanation: "Decides four structural necessary conditions of 'semantic edits preserve behaviour' (thin claim): " +
 			"G1 every holder of a reference is visited: for each refactoring entry point, the set of syntax fields read by the functions it reaches inside package refactoring (including the Apply methods of the edit values it creates) contains every place where the renamed / removed name can occur (call bindings, modifier bindings, return bindings, pipeline retains, the top-level call where applicable), " +
 			"G2 every expression container is traversed: the expression walkers that rewrite or remove references have an arm for each expression kind that can contain a reference in an uncompiled AST (RefExp, SplitExp, ArrayExp, MapExp) and recurse into the containers (sibling agreement), " +
-			"G3 names are matched whole: no strings.HasPrefix/HasSuffix/Contains/Index of a syntax name field against a non-constant name without a '.' delimiter anywhere in package refactoring. " +
+			"G3 names are matched whole: no strings.HasPrefix/HasSuffix/Contains/Index of a syntax name field against a non-constant name without a '.' delimiter anywhere in package refactoring, " +
+			"G4 key domains: Pipeline.Callables.Table is accessed with call ids and Ast.Callables.Table with declared names (domains of edit fields inferred from their stores into / comparisons with CallStm.Id and CallStm.DecId). " +
 			"NOT decided: that the edited program compiles, call-graph equality, round-trip of renames.",
 		Assumptions: commonAssumptions,
 	}
@@ -177,6 +178,7 @@ func runC19(c *an.Ctx) {
 
 	// ---------------- G3 ----------------
 	ruleG3(c, p.FuncsOf(pkgRefac))
+	ruleG4(c, p.FuncsOf(pkgRefac))
 
 	// ---------------- G2 ----------------
 	walkers := []struct {
@@ -356,4 +358,138 @@ func paramOfType(fn *ssa.Function, suffix string) *ssa.Parameter {
 		}
 	}
 	return nil
+}
+
+// G4: key domains of the callable tables.  Pipeline.Callables.Table maps the *call id* (the alias under
+// which a callable is called inside that pipeline, CallStm.Id / RefExp.Id) to the callable, while
+// Ast.Callables.Table maps the *declared name* (CallStm.DecId, Callable.GetId()).  The two differ exactly
+// for aliased calls.  In package refactoring every update, deletion or lookup of one of these tables
+// must use a key of the table's own domain.  The domain of an edit's field is inferred from the code:
+// a field stored into / compared with CallStm.Id is a call id, one stored into / compared with
+// CallStm.DecId is a declared name.  Keys of unknown domain give no verdict.
+func ruleG4(c *an.Ctx, fns []*ssa.Function) {
+	p := c.P
+	callId := p.Field(pkgSyntax, "CallStm", "Id")
+	decId := p.Field(pkgSyntax, "CallStm", "DecId")
+	refId := p.Field(pkgSyntax, "RefExp", "Id")
+	callablesF := map[string]*types.Var{"Pipeline": p.Field(pkgSyntax, "Pipeline", "Callables"), "Ast": p.Field(pkgSyntax, "Ast", "Callables")}
+	tableF := p.Field(pkgSyntax, "Callables", "Table")
+	if callId == nil || decId == nil || refId == nil || callablesF["Pipeline"] == nil || callablesF["Ast"] == nil || tableF == nil {
+		c.Undecided("G4", "anchor(CallStm.Id/DecId, Callables.Table)", token.NoPos, "field not found")
+		return
+	}
+	const (
+		domCall = 1
+		domDec  = 2
+	)
+	fieldOf := func(v ssa.Value) *types.Var {
+		_, f := an.FieldLoad(an.Strip(v))
+		return f
+	}
+	dom := map[*types.Var]int{callId: domCall, refId: domCall, decId: domDec}
+	learn := func(f *types.Var, d int) {
+		if f == nil || f == callId || f == decId || f == refId {
+			return
+		}
+		dom[f] |= d
+	}
+	for _, fn := range fns {
+		an.Instrs(fn, func(in ssa.Instruction) {
+			switch x := in.(type) {
+			case *ssa.Store:
+				if _, tf := an.FieldOfAddr(x.Addr); tf == callId {
+					learn(fieldOf(x.Val), domCall)
+				} else if tf == decId {
+					learn(fieldOf(x.Val), domDec)
+				}
+			case *ssa.BinOp:
+				if x.Op != token.EQL && x.Op != token.NEQ {
+					return
+				}
+				fx, fy := fieldOf(x.X), fieldOf(x.Y)
+				for _, pr := range [][2]*types.Var{{fx, fy}, {fy, fx}} {
+					if pr[0] == callId {
+						learn(pr[1], domCall)
+					} else if pr[0] == decId {
+						learn(pr[1], domDec)
+					}
+				}
+			}
+		})
+	}
+	keyDomain := func(k ssa.Value) int {
+		k = an.Strip(k)
+		if f := fieldOf(k); f != nil {
+			return dom[f]
+		}
+		if call, ok := k.(*ssa.Call); ok {
+			name := ""
+			if call.Call.IsInvoke() {
+				name = call.Call.Method.Name()
+			} else if f := call.Call.StaticCallee(); f != nil {
+				name = f.Name()
+			}
+			if name == "GetId" {
+				return domDec
+			}
+		}
+		return 0
+	}
+	// which table is m?  load of Callables.Table whose Callables was loaded from a Pipeline or an Ast
+	tableOwner := func(m ssa.Value) string {
+		base, f := an.FieldLoad(an.Strip(m))
+		if f != tableF {
+			return ""
+		}
+		b2, f2 := an.FieldLoad(an.Strip(base))
+		_ = b2
+		for owner, cf := range callablesF {
+			if f2 == cf {
+				return owner
+			}
+		}
+		return ""
+	}
+	n, undecided := 0, 0
+	for _, fn := range fns {
+		an.Instrs(fn, func(in ssa.Instruction) {
+			var m, k ssa.Value
+			var what string
+			switch x := in.(type) {
+			case *ssa.MapUpdate:
+				m, k, what = x.Map, x.Key, "insert"
+			case *ssa.Lookup:
+				m, k, what = x.X, x.Index, "lookup"
+			case *ssa.Call:
+				if args, ok := an.IsBuiltinCall(x, "delete"); ok && len(args) == 2 {
+					m, k, what = args[0], args[1], "delete"
+				}
+			}
+			if m == nil {
+				return
+			}
+			owner := tableOwner(m)
+			if owner == "" {
+				return
+			}
+			want := domCall
+			if owner == "Ast" {
+				want = domDec
+			}
+			d := keyDomain(k)
+			if d == 0 || d == domCall|domDec {
+				undecided++
+				return
+			}
+			n++
+			wantS, gotS := "call id (CallStm.Id)", "declared name (CallStm.DecId)"
+			if want == domDec {
+				wantS, gotS = gotS, wantS
+			}
+			c.Check("G4", what+"("+owner+".Callables.Table by "+an.StablePath(k)+")@"+an.FnName(fn), in.Pos(), d == want,
+				fmt.Sprintf("%s.Callables.Table is keyed by the %s but this %s uses a %s: for an aliased call the entry is filed under the wrong key and later steps of the same refactoring no longer find it", owner, wantS, what, gotS))
+		})
+	}
+	c.Note("G4: %d table accesses with a key of known domain, %d of unknown domain (no verdict)", n, undecided)
+	c.Floor("G4", "accesses of a Callables.Table with a key of known domain in package refactoring", n, 4)
 }
